@@ -35,7 +35,7 @@ TRUSTED = [
     "arity: the resolver builds std.not / std.neg nodes with one argument and std.eq / ne / and / or / coalesce with two: the declarations in std.prql have "
     "that many parameters (table rows std_arity UA.fold.*) and only saturated calls are evaluated (resolve_guards FA3); PL supplied as JSON can violate this and "
     "then args[0] / args[1] panic (precondition, not proved)",
-    "integer literals produced by the lexer are > i64::MIN (9223372036854775808 lexes as a float), so -val does not overflow (precondition)",
+    "integer literals produced by the lexer are > i64::MIN, so -val does not overflow (precondition): 9223372036854775808 lexes as a float, and a based literal (0x / 0b / 0o) is non-negative - the latter is unit lex_numbers NB1",
 ]
 
 PRELUDE = r"""
